@@ -59,6 +59,17 @@ func c14Expect(c *ctx, op string, msg ast.HSMSMessage, want [10]byte, typ string
 	if dec.Type() != typ || !bytes.Equal(dec.ToBytes(), b) {
 		c.Violation("C14/decode-differs/"+op, fmt.Sprintf("decoded Type()=%q bytes=%x; want %q %x", dec.Type(), dec.ToBytes(), typ, b), cs)
 	}
+	// the bytes a message hands out are the caller's: overwriting them changes neither the message nor its next encoding
+	for _, m := range []ast.HSMSMessage{msg, dec} {
+		out := m.ToBytes()
+		for i := range out {
+			out[i] ^= 0xFF
+		}
+		if again := m.ToBytes(); !bytes.Equal(again, wb) || m.Type() != typ {
+			c.Violation("C14/encoding-follows-overwritten-result/"+op, fmt.Sprintf("%s: after the caller overwrote the returned bytes, ToBytes()=%x Type()=%q; want %x %q", op, again, m.Type(), wb, typ), cs)
+			return
+		}
+	}
 	if c.WantSample() {
 		c.Sample(map[string]interface{}{"constructor": op, "bytes": hex.EncodeToString(b), "type": typ})
 	}
